@@ -173,6 +173,40 @@ ADDED = {
     "C20": ("", " Also: nothing in the accept cycle blocks other than accept (bounded channels, joins, sleeps are rejected); tokio connection tasks are detached "
                 "(no JoinSet / abort handle whose drop would cut responses in flight)."),
 }
+# clauses added after the second round of seeded changes and the R-BITS / SHA-1 structure work (DESIGN.md §7.2, §7.5)
+ADDED2 = {'C01': ('',
+         ' Round 2: the body is read exactly when Content-Length is present (one pure test, on every successful path; present -> read, absent -> nothing '
+         'read).'),
+ 'C02': ('',
+         " Round 2: same body-iff-Content-Length clause; cookies are the ';'-separated pieces split at their first '=' and trimmed, and get_cookie is the "
+         'first of them whose name equals the requested name as a whole string.'),
+ 'C04': ('', ' Round 2: the matcher and what feeds it compare characters as they are (no case folding / trimming / decoding calls).'),
+ 'C06': ('', ' Round 2: the value tested for `..` reaches the file-system call through path building only (no decode / rewrite after the test).'),
+ 'C07': ('',
+         ' Also: every Set-Cookie attribute is consulted on every path (no attribute depends on another being absent); between the redirect test and the '
+         're-send there is no way out (no hop counter), and the re-send closure branches on the Location value only.'),
+ 'C09': ('',
+         ' Also: a target is selected only for a request that is then relayed to it or answered 502 for it (the rotation advances once per proxied request).'),
+ 'C11': ('', ' Round 2: the SHA-1 structure and the Base64 encoder used for Sec-WebSocket-Accept are decided by the C18 rules, for every key.'),
+ 'C12': ('', ' Round 2: sends are write_all on a socket the non-blocking probe always puts back into blocking mode.'),
+ 'C13': ('',
+         " Also: a \\\\u escape's character is char::from_u32(unit), or for a pair char::decode_utf16([first, second]) / the explicit surrogate formula under "
+         'proven unit ranges D800..=DBFF and DC00..=DFFF.'),
+ 'C14': ('', ' Also: Vec<T> conversion in both directions converts every element exactly once (no filtering / skipping / reordering adaptor).'),
+ 'C15': ('', ' Also: the lines that are counted for error positions are the lines of the file as read (buffer only appended to, never trimmed or rebuilt).'),
+ 'C16': ('',
+         " Also: every operation that changes the queue's contents is one of the accounted ones (pop_front / remove / push_back with its cache_size update); "
+         'retain, clear, drain etc. are rejected.'),
+ 'C17': ('',
+         " Round 2: Argon2 is given the whole password argument (reference conversions only); a session's expiry is always now + lifetime (creation and "
+         'refresh); the cookie lookup used by authenticated routes is whole-name equality over the parsed cookie list.'),
+ 'C18': ('; R-BITS bit provenance (hv/bits) for the Base64 encoder; straight-line word-term execution (hv/wordsym) for the SHA-1 structure',
+         " Also decided for every input: the Base64 encoder bit by bit with its group slicing; the decoder's grouping, accumulator, shift 18-6i and output "
+         'bytes; the whole SHA-1 compression structure by data flow (word load, schedule recurrence, round update, f/K pairing, chaining, digest order).'),
+ 'C19': ('',
+         ' Round 2: nothing between SocketAddr::ip() / IpAddr::from_str and the blacklist comparison rewrites an address (to_ipv4, v4-mapped folding, '
+         're-mapping of the parsed list).')}
+
 
 NOT_APPLICABLE = {
     "C05": "Correctness of the wildcard matcher is a language-equivalence fact about a loop with data-dependent backtracking over all "
@@ -192,6 +226,8 @@ def main():
             ref, tech, text = CLAIMED[pid]
             if pid in ADDED:
                 tech, text = tech + ADDED[pid][0], text + ADDED[pid][1]
+            if pid in ADDED2:
+                tech, text = tech + ADDED2[pid][0], text + ADDED2[pid][1]
             checks.append({
                 "property_id": pid,
                 "quick_cmd": f"./check {pid} --tier quick",
